@@ -465,6 +465,8 @@ class SCCReader(BaseReader):
             cue = PopOnCue(buffer=deepcopy(self.buffer), start=self.time, end=0)
             self.pop_ons_queue.appendleft(cue)
             self.buffer = self.node_creator_factory.new_creator()
+            # the next caption is positioned on its own
+            self.node_creator_factory.position_tracker.caption_completed()
 
         # roll up captions [Carriage Return]
         elif word == "94ad":
